@@ -35,6 +35,7 @@ its result) record WHO created or moved a link:
 The oracle never reads this log to reach a verdict; it is used only to name
 the mechanism of a violation the directory listing already showed.
 """
+import os
 import shutil
 
 _STATE = {
@@ -59,6 +60,10 @@ _WRAPPED = ('_on_created', '_on_deleted', '_on_modified', '_synchronize',
             '_terminate', '_configure')
 
 
+class CleanupInterrupted(OSError):
+    """The container removal was interrupted half-way."""
+
+
 class FakeRuntime:
     """What is left of a runtime once the kernel boundary is removed."""
 
@@ -66,6 +71,21 @@ class FakeRuntime:
         self.container_dir = container_dir
 
     def finish(self):
+        frac = _STATE.pop('finish_partial', None)
+        if frac is not None:
+            # the removal fails half-way (EBUSY on a lingering mount): some files are gone, the rest stays; the
+            # clean-up job dies and is retried later by its supervisor
+            files = []
+            for base, _dirs, names in os.walk(self.container_dir):
+                # (the records that say the container ended - exitinfo / aborted / oom - are among what is left:
+                # without them nothing on disk tells a finished container from one that never ran, and such a
+                # history is outside the property)
+                files += [os.path.join(base, n) for n in names if n not in ('exitinfo', 'aborted', 'oom')]
+            files.sort()
+            for path in files[:max(1, int(len(files) * frac))]:
+                os.unlink(path)
+            raise CleanupInterrupted(16, 'Device or resource busy (injected half-way through the removal)',
+                                     self.container_dir)
         shutil.rmtree(self.container_dir)
 
 
